@@ -1,18 +1,24 @@
 # Claims table, exec'd by gen_manifest.py.  claim(pid, technique, level text, level note, design_ref)
 
 claim("C11",
-      "config-key taint on step-modulo guards (call-site + in-sink, polarity aware) + integer re-interpretation of allocation/cursor formulas",
+      "abstract interpretation of the run loop, output setup and writers against a model of HDF5 / text files (sa/h5model.py + sa/npsym.py, finite cadence tables, [EA+]); "
+      "config-key taint on step-modulo guards (call-site + in-sink, polarity aware) + integer re-interpretation of allocation/cursor formulas as the shape-based layer",
       "Decides, for every output stream C11 enumerates, that the only step-dependent gates controlling its write derive from the "
       "stream's own cadence key, hold as 'step is a multiple', test the same step label that is stored, carry a positivity "
       "guard (zero suppresses), that the initial snapshot is written and allocated, and that the allocation / resume-cursor "
       "formulas equal the number of due steps on an exhaustive small-integer domain. This covers every cadence tuple by "
-      "construction (independence is shown by taint, not by sampling tuples).",
+      "construction (independence is shown by taint, not by sampling tuples). In addition (R8) the base engine's run loop, its output setup, OutputConfig, HDF5Writer and "
+      "XYZWriter are interpreted from their syntax trees against a model of h5py / text files for 16 cadence tables (every stream switched off somewhere, every stream alone "
+      "somewhere, coprime cadences, permuted molecule ids, excited-state sub-streams) and for kill-and-resume at every loop iteration; the rows that end up in each sink must be "
+      "exactly the due steps, labelled and filled with that step's stamped values. Where R8 holds, findings of the shape-based rules about the same code are not reported "
+      "(they are then artefacts of spelling); the gating of the nonadiabatic stream inside the surface-hopping engine stays with the shape-based rules.",
       "Does not decide that stored values equal the state (see C08 bookkeeping rule) nor h5py behaviour. Trusted: guard-shape "
       "recognition (X % Y ==/!= 0 under and/or/not, enclosing ifs, early exits), def-chain label resolver, integer evaluator.",
       "DESIGN.md section 4, C11")
 
 claim("C10",
-      "CFG must-pass-through / dominance on the checkpoint and step-loop code, who-may-call on torch.save, typed-dictionary key-flow "
+      "abstract interpretation of run loop + writers + save_checkpoint + run_from_checkpoint against a model of the file system with flush semantics (sa/h5model.py, kill at every "
+      "loop iteration and right after every checkpoint publish, [EA+]); CFG must-pass-through / dominance on the checkpoint and step-loop code, who-may-call on torch.save, typed-dictionary key-flow "
       "(writer vs reader keys), resume-path positioning of every sink, interprocedural flow-sensitive loop-carried-state analysis of every engine's step (must-write dataflow)",
       "Decides the crash-consistency protocol on all CFG paths: atomic temp+os.replace checkpoint write reached by every "
       "save_checkpoint; every output event of an iteration flushed before the checkpoint on every path; every key the resume "
@@ -21,7 +27,9 @@ claim("C10",
       "one-time initialisation repeated on resume; every attribute of the driver or the molecule that carries a value from one step into the "
       "next (per concrete engine class) is written by the checkpoint writer chain and assigned on the resume path, or recomputed by initialize() "
       "from restored molecule state, or is an inventoried scratch/report attribute. These are for-all-crash-point statements because they are "
-      "path/ordering facts, not sampled crashes.",
+      "path/ordering facts, not sampled crashes. R10 adds the by-value reading for the base engine: the interpreted uninterrupted run is compared, file by file, with the "
+      "interpreted resumed run from every kill point, for the files as written and for the files as of their last flush (what a hard kill leaves), through the real "
+      "save_checkpoint / run_from_checkpoint code (torch.save, os.replace, torch.load replaced by a model disk). R11 shares C09's restart-slot rule.",
       "Does not decide byte equality of HDF5 datasets, torn writes inside libhdf5, or that the restored tensors are numerically "
       "sufficient to reproduce the trajectory. Trusted: CFG builder, key-flow inference, os.replace atomicity.",
       "DESIGN.md section 4, C10")
@@ -67,8 +75,8 @@ claim("C13",
       "DESIGN.md section 4, C13")
 
 claim("C17",
-      "symbolic straight-line interpretation of the RK4 sub-step and of the hop quadratic (sympy), SSA order check of the hop-probability chain, "
-      "CFG purity of frustrated exits, index-discipline and row-0 who-may-read rules",
+      "symbolic straight-line interpretation of the RK4 sub-step (sympy); abstract interpretation (sa/npsym.py, exact rational requests, [EA+]) of the fewest-switches selection, "
+      "of the velocity adjustment and of the hop-loop bookkeeping; row-0 who-may-read rules; expression algebra on the Tully surfaces",
       "Decides the RK4 stage/weight structure of the electronic propagation, the clamp->sum->normalise->single-draw shape of the "
       "fewest-switches probabilities, that the velocity adjustment as coded conserves energy identically and takes the smaller "
       "root along the mass-weighted coupling vector, that no path reporting a frustrated hop wrote velocities or active state, "
